@@ -115,7 +115,7 @@ func runC07Request(world map[string]any, rq map[string]any) (map[string]any, err
 	if occ == 1 {
 		body := []byte("landing " + Marker + "\n")
 		d := sb.w.Dir
-		for _, rel := range []string{"x", "abs", "config/x.yaml", "../x", "../../x"} {
+		for _, rel := range []string{"x", "abs", "config/x.yaml", "../x", "../../x", "root.bak/n", "config/Users-x/a.yaml"} {
 			_ = os.WriteFile(filepath.Join(d, rel), body, 0644)
 		}
 	}
